@@ -379,7 +379,8 @@ def run_find_scp(rng, policy, mid, ctx, matches, worklist=False, max_len=16384, 
     """matches: list of (pending status code, size hint).  max_len 'fit' / 'fit2': the maximum is chosen so that the
     first identifier fills exactly one / two fragments."""
     sop = MWL if worklist else FIND
-    results = [(ident(rng, n), statuses.Status(s, dm.CFindRSPMessage)) for s, n in matches]
+    # size hint None: the application yields None as the identifier (the natural companion of a final status of its own)
+    results = [(None if n is None else ident(rng, n), statuses.Status(s, dm.CFindRSPMessage)) for s, n in matches]
     if max_len in ('fit', 'fit2'):
         ln = len(enc(results[0][0])) if results else 40
         max_len = (ln + 6) if max_len == 'fit' or ln % 2 else (ln // 2 + 6)
@@ -405,7 +406,7 @@ def run_find_scp(rng, policy, mid, ctx, matches, worklist=False, max_len=16384, 
     msg = S.decode_message(S.request_bytes(0x0020, mid, sop), enc(query), ctx)
     tr = [{'ev': 'Req', 'svc': 'mwl' if worklist else 'find', 'req': {'type': 0x0020, 'ctx': ctx, 'mid': mid, 'cls': sop, 'inst': ''}}]
     for ds, st in (results if fail_after is None else results[:fail_after]):
-        tr.append({'ev': 'Match', 'd': S.token(enc(ds)), 's': int(st)})
+        tr.append({'ev': 'Match', 'd': 0 if ds is None else S.token(enc(ds)), 's': int(st)})
     if fail_after is not None:
         tr.append({'ev': 'Handler', 'status': DOCUMENTED_FAILURE['find']})
     # ctx_sop: the request names one find class, the context it arrives on was negotiated for another one
